@@ -14,6 +14,7 @@ Inductive kind :=
 | KSelect      (* select, channel send / receive / range over channel *)
 | KFloat       (* float32 / float64 / complex typed expression *)
 | KPointer     (* unsafe, %p, uintptr conversions, reflect pointers *)
+| KGlobal      (* package-level variable that can change after init: process-local state *)
 | KAnchor      (* not order-sensitive: code an order-independence argument leans on (sort call,
                   consumer function, uses of a slice filled in map order), pinned by hash *)
 | KUnknown.    (* the translator could not classify the construct: always rejected *)
@@ -33,7 +34,7 @@ Definition kind_eqb (a b : kind) : bool :=
   match a, b with
   | KMapRange, KMapRange | KMapIter, KMapIter | KRangeFunc, KRangeFunc | KTime, KTime
   | KRand, KRand | KGo, KGo | KSelect, KSelect | KFloat, KFloat | KPointer, KPointer
-  | KAnchor, KAnchor | KUnknown, KUnknown => true
+  | KGlobal, KGlobal | KAnchor, KAnchor | KUnknown, KUnknown => true
   | _, _ => false
   end.
 
